@@ -556,6 +556,13 @@ func genC13(r *rng, n int) {
 	n -= nProto
 	rp := r.fork()
 	defer genC13Proto(rp, nProto)
+	// widened classes (c13_wide.go): long high-expansion strings through Do / DoInto
+	thorough := n >= 20000
+	nStr := 60
+	if thorough {
+		nStr = 200
+	}
+	n -= genC13ThriftStrings(r.fork(), nStr, thorough)
 	made := 0
 	for made < n {
 		g := newGen13(r.fork())
@@ -568,6 +575,10 @@ func genC13(r *rng, n int) {
 		desc := svc.Functions()["M"].Request().Struct().FieldById(1).Type()
 		g.checkDesc(g.root, desc, map[*Ty]bool{})
 		dfs := g.descFields13()
+		// retention mode for a share of the descriptors: the whole batch through each leg by DoInto, results read afterwards
+		batchMode := g.r.chance(35)
+		var batch [][]byte
+		bo1, bo2 := g.optPair()
 		for k := 0; k < 8 && made < n; k++ {
 			vo := &opt13{unknown: g.r.chance(12), badUTF8: g.r.chance(5), nonFinite: g.r.chance(4), badBool: g.r.chance(5)}
 			val := g.value13(g.root, 0, vo)
@@ -576,8 +587,20 @@ func genC13(r *rng, n int) {
 			if debug13 {
 				fmt.Fprintf(os.Stderr, "---- case %d way %d o1 %d o2 %d\n%s", made, g.mapWay, o1, o2, idl)
 			}
+			if batchMode {
+				batch = append(batch, b)
+				made++
+				if len(batch) >= 2+g.r.intn(4) || k == 7 || made >= n {
+					run13Batch(g, desc, dfs, batch, bo1, bo2)
+					batch = nil
+				}
+				continue
+			}
 			run13(g, desc, dfs, b, o1, o2)
 			made++
+		}
+		if len(batch) > 0 {
+			run13Batch(g, desc, dfs, batch, bo1, bo2)
 		}
 	}
 }
